@@ -542,6 +542,30 @@ theorem inv_putElem {w w' : World} {sid : Nat} {d : Dim} {ph : Option Char} {i :
           exact ⟨inv_getView h hs (Or.inr rfl), (getView_streams w sid _).2.1⟩
       · cases he
 
+theorem inv_putRow {w w' : World} {sid : Nat} {d : Dim} {ph : Option Char} {xs : List Rat} {V : Mat}
+    {vid : Option Nat} (h : Inv w.s) (hs : sid < w.s.nstreams)
+    (he : w.putRow sid d ph xs V = .ok (w', vid)) : Inv w'.s ∧ w'.s.nstreams = w.s.nstreams := by
+  simp only [World.putRow] at he
+  split at he
+  · cases he
+  · split at he
+    · cases he
+    · split at he
+      · split at he
+        · cases he
+        · cases he; exact ⟨h, rfl⟩
+      · simp only [World.massView] at he
+        split at he
+        · cases he
+        · cases he
+          exact ⟨inv_getView h hs (Or.inl rfl), (getView_streams w sid _).2.1⟩
+      · simp only [World.volView] at he
+        split at he
+        · cases he
+        · cases he
+          exact ⟨inv_getView h hs (Or.inr rfl), (getView_streams w sid _).2.1⟩
+      · cases he
+
 theorem inv_setF {w w' : World} {sid : Nat} {d : Dim} {x : Rat} {V : Mat}
     (he : w.setF sid d x V = .ok w') : w'.s = w.s := by
   simp only [World.setF] at he
@@ -653,6 +677,14 @@ theorem exec_inv {w w' : World} {op : Op} {out : Out} (h : Inv w.s) (he : w.exec
         obtain ⟨w1, vid⟩ := r
         cases he
         exact (inv_putElem h (hsid s (by simp [Op.sids])) hr).1
+    | putRow s d ph xs V =>
+      simp only [Except.map] at he
+      split at he
+      · cases he
+      · rename_i r hr
+        obtain ⟨w1, vid⟩ := r
+        cases he
+        exact (inv_putRow h (hsid s (by simp [Op.sids])) hr).1
     | getFlow s u ph i V =>
       simp only [Except.map, World.getFlow] at he
       split at he
